@@ -253,6 +253,9 @@ class Execution:
         self.outcomes = []
         self.op_steps = {}
         self.op_gen_steps = {}
+        # an op issued while a forward reference is unresolved is compared with
+        # the same op alone on a fresh eager family holding the same classes
+        self.strict_f3 = True
 
     # -- reference -------------------------------------------------------
     def reference(self, nchunks, op):
@@ -354,8 +357,9 @@ class Execution:
                     else:
                         self.stats["aborts_missed"] += 1
                 if self.f3(op):
-                    faulted = True
                     self.stats["f3"] += 1
+                    if not self.strict_f3:
+                        faulted = True
                 if not self.check(idx, op, out, faulted):
                     break
         finally:
@@ -405,7 +409,8 @@ class Execution:
             for j, o in enumerate(prog):
                 if f3s[tid][j]:
                     self.stats["f3"] += 1
-                if not self.check(idx, o, results[tid][j], f3s[tid][j], sub=[tid, j]):
+                if not self.check(idx, o, results[tid][j], f3s[tid][j] and not self.strict_f3,
+                                  sub=[tid, j]):
                     return False
         return True
 
